@@ -7,7 +7,7 @@ from mirsym import models as MD
 
 PROP = 'C18'
 SRC = 'crates/anemo-tower/src/inflight_limit.rs'
-ALLOWED_STATE_OPS = re.compile(r'(DashMap::(entry|len|is_empty|contains_key|get)|Ref::value|Entry::or_insert_with|RefMut::value|Semaphore::(new|acquire|try_acquire|available_permits)|as Clone>::clone|as Deref>::deref)$')
+ALLOWED_STATE_OPS = re.compile(r'(DashMap::(entry|len|is_empty|contains_key|get)|Ref::value|Entry::or_insert_with|RefMut::value|Semaphore::(new|acquire|try_acquire|acquire_owned|try_acquire_owned|available_permits)|as Clone>::clone|as Deref>::deref)$')
 STATE_OPS = re.compile(r'(Semaphore|SemaphorePermit|DashMap|dashmap::|mapref::)')
 
 
@@ -74,12 +74,12 @@ def ob_call(report):
             k(p, Sym('new_sem', 'Semaphore'))
 
         def m_acquire(ex, p, call, k):
-            s = ex.deref(p, call.args[0])
+            s = ex.deref(p, call.args[0]) if isinstance(call.args[0], Ptr) else call.args[0]      # &Semaphore | Arc<Semaphore> (acquire_owned)
             p.events.append(Event('acquire', 'Semaphore::acquire', (s,)))
             k(p, Sym(f'acquire_future({vname(s)})', 'Acquire'))
 
         def m_try_acquire(ex, p, call, k):
-            s = ex.deref(p, call.args[0])
+            s = ex.deref(p, call.args[0]) if isinstance(call.args[0], Ptr) else call.args[0]
             p.events.append(Event('try-acquire', 'Semaphore::try_acquire', (s,)))
             k(p, Sym(f'try({vname(s)})', 'Result<SemaphorePermit, TryAcquireError>'))
 
@@ -94,8 +94,8 @@ def ob_call(report):
         def m_inner_call(ex, p, call, k):
             p.events.append(Event('inner-call', 'Service::call', (ex.deref(p, call.args[0]), call.args[1])))
             k(p, Sym('inner_future', 'F'))
-        models = [(r'Request::peer_id$', m_peer_id), (r'DashMap::entry$', m_entry), (r'Entry::or_insert_with$', m_or_insert_with), (r'RefMut::value$', m_value),
-                  (r'Semaphore::new$', m_sem_new), (r'Semaphore::acquire$', m_acquire), (r'Semaphore::try_acquire$', m_try_acquire),
+        models = [(r'Request::peer_id$', m_peer_id), (r'DashMap::entry$', m_entry), (r'Entry::or_insert_with$', m_or_insert_with), (r'RefMut::value$|<(\w+::)*RefMut as Deref(Mut)?>::deref(_mut)?$', m_value),
+                  (r'Semaphore::new$', m_sem_new), (r'Semaphore::acquire(_owned)?$', m_acquire), (r'Semaphore::try_acquire(_owned)?$', m_try_acquire),
                   (r'<Arc as Deref>::deref$', m_arc_deref), (r'<S as Service>::call$', m_inner_call)]
         ex = e2.executor('anemo-tower', models, max_depth=2)
         fn = find_method(ex.prog, 'InflightLimit', 'call', trait='Service')
